@@ -7,7 +7,7 @@
 (* clauses and the run goes on; Consumed (POSTCONDITION) demands that      *)
 (* every step of every case was judged.                                    *)
 (***************************************************************************)
-EXTENDS JudgeC01, JudgeHist, JudgeC15, JudgeC20, JudgePass, JudgeCnf, JudgeFn, JudgeBench, JudgeCodec, JudgeSynth, Json, IOUtils, TLCExt
+EXTENDS JudgeC01, JudgeHist, JudgeC15, JudgeC20, JudgePass, JudgeCnf, JudgeFn, JudgeBench, JudgeCodec, JudgeSynth, JudgeArith, Json, IOUtils, TLCExt
 
 (* The case file is deserialised ONCE (in Init, into TLC register 7); TLC would otherwise
    re-read the JSON file at every reference of a zero-arity definition built on IOEnv. *)
@@ -32,6 +32,7 @@ Fails(c, s) ==
     [] c.kind = "ttcode"  -> C01TTCodeFails(c)
     [] c.kind = "hist"    -> HistFails(c, s)
     [] c.kind = "partial" -> C15Fails(c)
+    [] c.kind = "arith"   -> ArithFails(c)
     [] c.kind = "synth"   -> C06Fails(c)
     [] c.kind = "codec"   -> C16CodecFails(c)
     [] c.kind = "bitio"   -> C16BitIOFails(c)
